@@ -99,8 +99,15 @@ def eval_all(w):
 
 
 def run_history(root, hist, depth_ops=None):
-    w = StructWorld(root)
     case = {"root": root, "history": hist}
+    try:
+        w = StructWorld(root)
+    except Exception as e:
+        # the canonical construction of a well-formed root (spaces, members, then add_bases in topological order)
+        # is itself a sequence of valid edits
+        return ({"construct": "failed"},
+                [{"clause": "construct", "case": case, "observed": "%s: %s" % (type(e).__name__, str(e)[:200]),
+                  "expected": "a linearisable root can be built"}], "construct-failed", {"rm": None, "rejected": True})
     obs = []
     warm = bool(root.get("warm"))
     if warm:
@@ -118,8 +125,15 @@ def run_history(root, hist, depth_ops=None):
     if not viols:
         import copy
         rm_copy = copy.deepcopy(w.rm)
-        sv = scratch_view(rm_copy)
-        if sv != iv:
+        try:
+            sv = scratch_view(rm_copy)
+        except Exception as e:
+            sv = None
+            viols.append({"clause": "construct", "case": case,
+                          "observed": "building the reference definitions from scratch raised %s: %s"
+                                      % (type(e).__name__, str(e)[:200]),
+                          "expected": "well-formed definitions can be built"})
+        if sv is not None and sv != iv:
             diff = sorted(p for p in set(sv) | set(iv) if sv.get(p) != (iv or {}).get(p))
             viols.append({"clause": "scratch", "case": case,
                           "observed": {p: (iv or {}).get(p) for p in diff[:2]},
